@@ -234,6 +234,12 @@ def run_c06(ctx, cases, ref=False):
             p1 = p1s[i]["popt"]
         lines.append(cert_request(c, o, p1))
         idx.append((c, o))
+        if p1 is not None:
+            # the first pass (same data, x-uncertainties dropped) is a fit in its own right
+            c1 = dict(c, xerr=None, sx="none")
+            lines.append(cert_request(c1, p1s[i], None))
+            idx.append((c1, p1s[i]))
+            dist["first-pass-fits-certified"] += 1
     for (c, o), k in zip(raised, conditioning(ctx, [c for c, _ in raised], ref=ref)):
         if k > KAPPA_MAX:
             skipped += 1
@@ -260,7 +266,7 @@ def run_c06(ctx, cases, ref=False):
                             "certificate": {"n_selected": r.get("n"),
                                             "grad": [fb(v)[0] for v in r["grad"]],
                                             "kappa": unbits(r["kappa"])}})
-    return {"evaluations": len(cases), "nontrivial": nontrivial, "failures": failures,
+    return {"evaluations": len(idx) + len(raised), "nontrivial": nontrivial, "failures": failures,
             "samples": samples, "distribution": dict(dist), "skipped": skipped}
 
 
